@@ -143,10 +143,25 @@ def run(rep, idx, tier):
         check_dl(rep, "C04.2", c, "chunk.r_en' = bus.r_stb under Case(A) of a sharing register, else 0", ds, dl.HOLD,
                  [(r.case, "self.bus.r_stb"), ("1", "0")], env)
     # C04.3 capture
-    glue.check_fanin(rep, "C04.3", c, "chunk capture enable == OR of the sharing registers' read strobes", "chunk.w_en",
-                     "REG.element.r_stb", env, r.Lr, outer=(r.Lc.id,))
     ds = c.drivers_of(c.parse("chunk.data", env))
     cap = [d for d in ds]
+    enable = "chunk.w_en"
+    if c.drivers_of(c.parse("chunk.w_en", env)):
+        glue.check_fanin(rep, "C04.3", c, "chunk capture enable == OR of the sharing registers' read strobes", "chunk.w_en",
+                         "REG.element.r_stb", env, r.Lr, outer=(r.Lc.id,))
+    else:
+        # no enable wire: the OR of the strobes is used directly as the load condition
+        conds = {c.norm(fr[1]) for d in cap for fr in d.dsl if fr[0] == 'if'}
+        accs = [x for x in conds if x[0] == 'acc']
+        if len(conds) == 1 and len(accs) == 1:
+            ea = c.t.accs[accs[0][1]]
+            if glue.check_acc(rep, "C04.3", c, "chunk capture enable == OR of the sharing registers' read strobes", ea,
+                              "REG.element.r_stb", env, r.Lr, outer=(r.Lc.id,)):
+                rep.ok("C04.3", site, "chunk capture enable == OR of the sharing registers' read strobes", "used directly as the load condition")
+            enable = accs[0]
+        else:
+            rep.bad("C04.3", site, "chunk capture enable", "chunk.w_en is never driven and the shadow data is not loaded under a plain OR of "
+                    "the sharing registers' read strobes")
     if not cap or {d.domain for d in cap} != {"sync"}:
         rep.bad("C04.3", site, "chunk.data", "shadow data must be a sync register")
     else:
@@ -156,9 +171,9 @@ def run(rep, idx, tier):
             rep.bad("C04.3", site, "chunk.data capture value", "value is not an OR-reduction over the sharing registers")
         else:
             check_dl(rep, "C04.3", c, "chunk.data' = captured slice when the capture enable is high, else hold", cap, dl.HOLD,
-                     [("chunk.w_en", ('acc', a.id))], env)
+                     [(enable, ('acc', a.id))], env)
             want_term = c.parse("Mux(REG.element.r_stb, REG.element.r_data.word_select(A - rng.start, self.bus.data_width), 0)", env)
-            ok = len(a.terms) == 1 and c.norm(a.terms[0][0]) == want_term and c.norm(a.init) == ('const', 0) and \
+            ok = len(a.terms) == 1 and c.norm(a.terms[0][0]) == want_term and glue.is_zero(c, a.init) and \
                 [fr for fr in a.terms[0][1] if fr[0] == 'pyif'] == [] and ('for', r.Lr.id) in a.terms[0][1]
             rep.check(ok, "C04.3", site,
                       "captured value == OR of Mux(reg.r_stb, reg.r_data.word_select(A - range.start, data_width), 0)",
